@@ -22,6 +22,10 @@ def load_templates():
     t = []
     t.append(dict(name='geo_tdp_orc', kind='geo', text=WL.GEO_BASE, cost='fast'))
     t.append(dict(name='geo_sf_sorc', kind='geo', text=WL.GEO_BASE_2, cost='fast'))
+    t.append(dict(name='geo_tdp_orc_2seg', kind='geo', cost='fast',
+                  text=WL.GEO_BASE + 'Number of Segments, 2\nGradients, 65, 40\nThicknesses, 1.2, 1\n'))
+    t.append(dict(name='geo_sf_sorc_3seg', kind='geo', cost='fast',
+                  text=WL.GEO_BASE_2 + 'Number of Segments, 3\nGradients, 70, 50, 35\nThicknesses, 1, 1, 1\n'))
     for n, cost in (('example4.txt', 'fast'), ('example13.txt', 'fast'), ('example5.txt', 'fast'), ('example3.txt', 'fast'),
                     ('example10_HP.txt', 'fast'), ('example11_AC.txt', 'fast'), ('S-DAC-GT.txt', 'fast'), ('example2.txt', 'fast'),
                     ('MC_Fervo_Norbeck_Latimer_2024.txt', 'fast'),
@@ -39,7 +43,30 @@ def load_templates():
     t.append(dict(name='hip_b', kind='hip', text=WL.HIP_BASE_2, cost='fast'))
     for x in t:
         x['numeric'] = numeric_lines(x['text'])
+        x['multi'] = multi_lines(x['text'])
     return t
+
+
+def multi_lines(text):
+    """[(parameter name, [values])] for list-valued lines (two or more comma-separated numbers); the last occurrence wins"""
+    out = {}
+    for ln in text.split('\n'):
+        s = ln.split('--')[0].strip()
+        if not s or s.startswith('#'):
+            continue
+        parts = [p.strip() for p in s.split(',')]
+        vals = []
+        for p in parts[1:]:
+            if p == '':
+                continue
+            try:
+                vals.append(float(p))
+            except ValueError:
+                vals = []
+                break
+        if len(vals) >= 2:
+            out[parts[0]] = vals
+    return sorted(out.items())
 
 
 def numeric_lines(text):
@@ -104,6 +131,15 @@ def neighbour_tweak(cs, template, ranges):
     allowable range whether or not the template mentions it"""
     nums = template.get('numeric') or []
     ints = ranges.get('__int__') or []
+    multi = template.get('multi') or []
+    if multi and cs.choose(3, 'nmulti') == 2:
+        # move one element in the TAIL of a list-valued line (the head stays as it is)
+        name, vals = multi[cs.choose(len(multi), 'nmline')]
+        j = 1 + cs.choose(len(vals) - 1, 'nmidx')
+        f = [0.9, 1.1, 0.5][cs.choose(3, 'nmfac')]
+        vals = list(vals)
+        vals[j] = float(f'{vals[j] * f:.6g}')
+        return (name, ', '.join(f'{v:.6g}' for v in vals))
     if template.get('kind') == 'geo' and ints and cs.choose(3, 'nkind') == 2:
         name = ints[cs.choose(len(ints), 'nint')]
         lo, hi = ranges[name]
@@ -135,6 +171,9 @@ GEO_TWEAKS = [
     ('Units:Net Electricity Production', ['kW']),
     ('Units:Produced Temperature', ['degF']),
     ('Units:Pumping Power', ['kW']),
+    # list-valued parameters: requests that differ only in the tail of a multi-valued line
+    ('Number of Segments', ['2\nGradients, 50, 40\nThicknesses, 1.5, 1', '2\nGradients, 50, 25\nThicknesses, 1.5, 1',
+                            '2\nGradients, 50, 25\nThicknesses, 1.2, 1', '3\nGradients, 50, 40, 30\nThicknesses, 1, 0.5, 1']),
 ]
 
 HIP_TWEAKS = [
